@@ -121,6 +121,9 @@ def check_unit(name, rlimit):
         res.infra.append("verus VIR error (unsupported construct / ill-formed contract): " + '\n'.join(m for m in msgs if m))
         return res
     rustc_errs = [d for d in r['diags'] if d.get('level') == 'error' and d.get('code')]
+    if not rustc_errs and vr.get('verified', 0) + vr.get('errors', 0) == 0:
+        # nothing was verified at all: a syntax error or another front-end failure
+        rustc_errs = [d for d in r['diags'] if d.get('level') == 'error' and not (d.get('message') or '').startswith('aborting')]
     if rustc_errs:
         msgs = [d.get('rendered') or d.get('message') for d in rustc_errs][:4]
         res.infra.append("rustc error in the generated unit (unsupported construct, changed signature or ill-formed contract): " + '\n'.join(m for m in msgs if m))
